@@ -1,7 +1,8 @@
 (* Extraction of the Layer-C model (ExtrOcamlBasic only). *)
 From Coq Require Import ExtrOcamlBasic Extraction.
-Require Import PV.Stack.Model PV.Comb.PState PV.Comb.Bytes PV.Comb.Prog PV.Comb.Exec.
+Require Import PV.Stack.Model PV.Comb.PState PV.Comb.Bytes PV.Comb.Prog PV.Comb.Exec PV.Comb.Ref.
 Extraction Language OCaml.
 Extraction "../ocaml/gen/comb_model.ml" exec init outcome_of parse_with run_state limit_reached
   cache popped lengths input pos queue lookahead pos_attempts neg_attempts attempt_pos atomicity stack calls limit
-  pa_enabled call_stacks expected unexpected max_position.
+  pa_enabled call_stacks expected unexpected max_position
+  rexec rinit notag r_pos r_queue r_stack r_look r_atom.
